@@ -30,14 +30,14 @@ theorem PInv.locs {E : PropOps T R} {o : PropObj T R} {h : Heap T} {dists ap cp 
 /-- the relation the three loops of `reconstruct` keep (`h0` = the heap the call started with, the new buffer is the object `h0.size`): the
     attributes are unchanged, the invariant holds, the buffer holds the ghost value, everything that existed before the call (except the
     cache buffers) is as it was -/
-def RecRel (E : PropOps T R) (o : PropObj T R) (h0 : Heap T) (dists ap cp : T) (s : PropagatorSelf T R × Heap T × List String) (buf : T) : Prop :=
+def RecRel (E : PropOps T R) (o : PropObj T R) (h0 : Heap T) (dists ap cp : T) (s : PropagatorAttrs T R × Heap T × List String) (buf : T) : Prop :=
   s.1 = o.toSelf ∧ PInv E o s.2.1 dists ap cp ∧ s.2.1.get h0.size = some buf ∧
     ∀ l, l < h0.size → l ≠ o.kernels → l ≠ o.generated_kernels → s.2.1.get l = h0.get l
 
 /-- one pass of the innermost loop -/
 theorem gen_propagatorReconstructG_for3 (E : PropOps T R) (L : PropLaws E) (o : PropObj T R) (h0 : Heap T) (dists ap cp : T) (locs : PLocs o h0.size)
     (hp ampv phs : T) (ng gc : Bool) (rt : Option String) (f d : Int)
-    (s : PropagatorSelf T R × Heap T × List String) (a : T) (c : Nat) (a' : T) (hr : RecRel E o h0 dists ap cp s a)
+    (s : PropagatorAttrs T R × Heap T × List String) (a : T) (c : Nat) (a' : T) (hr : RecRel E o h0 dists ap cp s a)
     (hs : (pSlot E o dists ap cp phs ampv gc f d c).map (E.setIdx a [f, d, (c : Int)]) = some a') :
     ∃ s', propagatorReconstructG_for3 E hp ng gc rt h0.size ampv phs f d s c = some s' ∧ RecRel E o h0 dists ap cp s' a' := by
   obtain ⟨self1, heap1, log1⟩ := s
@@ -84,7 +84,7 @@ theorem gen_propagatorReconstructG_for3 (E : PropOps T R) (L : PropLaws E) (o : 
 /-- one pass of the middle loop: the innermost loop over the channels -/
 theorem gen_propagatorReconstructG_for2 (E : PropOps T R) (L : PropLaws E) (o : PropObj T R) (h0 : Heap T) (dists ap cp : T) (locs : PLocs o h0.size)
     (hp ampv phs : T) (ng gc : Bool) (rt : Option String) (f : Int)
-    (s : PropagatorSelf T R × Heap T × List String) (a : T) (d : Nat) (a' : T) (hr : RecRel E o h0 dists ap cp s a)
+    (s : PropagatorAttrs T R × Heap T × List String) (a : T) (d : Nat) (a' : T) (hr : RecRel E o h0 dists ap cp s a)
     (hs : (List.range o.number_of_channels.toNat).foldlM (fun buf (c : Nat) =>
       (pSlot E o dists ap cp phs ampv gc f d c).map (E.setIdx buf [f, (d : Int), (c : Int)])) a = some a') :
     ∃ s', propagatorReconstructG_for2 E hp ng gc rt h0.size ampv phs f s d = some s' ∧ RecRel E o h0 dists ap cp s' a' := by
@@ -99,7 +99,7 @@ theorem gen_propagatorReconstructG_for2 (E : PropOps T R) (L : PropLaws E) (o : 
 /-- one pass of the outer loop: the middle loop over the depth planes -/
 theorem gen_propagatorReconstructG_for1 (E : PropOps T R) (L : PropLaws E) (o : PropObj T R) (h0 : Heap T) (dists ap cp : T) (locs : PLocs o h0.size)
     (hp ampv phs : T) (ng gc : Bool) (rt : Option String)
-    (s : PropagatorSelf T R × Heap T × List String) (a : T) (f : Nat) (a' : T) (hr : RecRel E o h0 dists ap cp s a)
+    (s : PropagatorAttrs T R × Heap T × List String) (a : T) (f : Nat) (a' : T) (hr : RecRel E o h0 dists ap cp s a)
     (hs : (List.range o.number_of_depth_layers.toNat).foldlM (fun buf (d : Nat) => (List.range o.number_of_channels.toNat).foldlM (fun buf (c : Nat) =>
       (pSlot E o dists ap cp phs ampv gc f d c).map (E.setIdx buf [(f : Int), (d : Int), (c : Int)])) buf) a = some a') :
     ∃ s', propagatorReconstructG_for1 E hp ng gc rt h0.size ampv phs s f = some s' ∧ RecRel E o h0 dists ap cp s' a' := by
